@@ -385,12 +385,20 @@ class SSet(Sym):
         return r
 
     def union(self, *others):
+        if self.sort is None and all(isinstance(o, (set, frozenset, list, tuple)) and not any(isinstance(e, Sym) for e in o) for o in others):
+            return set().union(*others)  # the empty set literal met only concrete operands: plain Python
         r = self
         for o in others:
             r = r._binop(o, lambda a, b: z3.Or(a, b), "union", lambda c, c1, c2: z3.And(c >= c1, c >= c2, c <= c1 + c2))
         return r.copy() if r is self else r
 
     __or__ = union
+
+    def __ror__(self, o):
+        # a concrete Python set on the left (e.g. `real_set | set(nodes)` with an empty `nodes`)
+        if self.sort is None and isinstance(o, (set, frozenset)) and not any(isinstance(e, Sym) for e in o):
+            return set(o)
+        return as_set(o, self.sort).union(self)
 
     def difference(self, o):
         return self._binop(o, lambda a, b: z3.And(a, z3.Not(b)), "diff", lambda c, c1, c2: z3.And(c <= c1, c >= c1 - c2))
